@@ -250,6 +250,25 @@ func suiteSched(o *suiteOut, r *rng, tier string, n int) {
 		"1 2\n%%Key: v\n%+ no\n%%+ yes\n%%", "%%A: 1\n%%+ 2"} {
 		pool = append(pool, input{"ps", []byte(p), "DSC with continuation lines"})
 	}
+	// long binary strings read with readstring at the very end of the input, and AFM files with the three line-end
+	// conventions: under every two-chunk split
+	{
+		bin := make([]byte, 600)
+		for i := range bin {
+			bin[i] = byte(i*7 + 3)
+		}
+		pool = append(pool, input{"ps", append([]byte("/s currentfile 600 string readstring\n"), bin...), "every split"})
+		pool = append(pool, input{"ps", append(append([]byte("currentfile 520 string readstring "), bin[:520]...), []byte(" pop length")...), "every split"})
+		pool = append(pool, input{"ps", append([]byte("currentfile 600 string readstring "), bin[:300]...), "every split"})
+		mm := randMetrics(newRng(11))
+		at, _, _ := writeMetrics(mm)
+		if len(at) > 1400 {
+			at = append(at[:1000:1000], []byte("\nEndCharMetrics\nEndFontMetrics\n")...)
+		}
+		pool = append(pool, input{"afm", bytes.ReplaceAll(at, []byte("\n"), []byte("\r")), "every split"})
+		pool = append(pool, input{"afm", bytes.ReplaceAll(at, []byte("\n"), []byte("\r\n")), "every split"})
+		pool = append(pool, input{"afm", at, "every split"})
+	}
 	for _, p := range []string{"xyz", "x", "", "%", "%!", "%!PS\n1 2", "%x", "% !", "%!\n>x"} {
 		pool = append(pool, input{"psc", []byte(p), "start check"})
 	}
@@ -282,7 +301,7 @@ func suiteSched(o *suiteOut, r *rng, tier string, n int) {
 			}
 			// two-chunk splits: every position for short inputs, a sample otherwise
 			var cuts []int
-			if len(in.data) <= 400 || tier == "thorough" && len(in.data) <= 3000 {
+			if len(in.data) <= 400 || in.desc == "every split" && len(in.data) <= 1500 || tier == "thorough" && len(in.data) <= 3000 {
 				for k := 0; k <= len(in.data); k++ {
 					cuts = append(cuts, k)
 				}
@@ -298,7 +317,8 @@ func suiteSched(o *suiteOut, r *rng, tier string, n int) {
 				}
 				first := true
 				kk := k
-				schedCase(o, in, fmt.Sprintf("split-%d", k), &chunkedReader{data: cp(), next: func(rem int) int {
+				// the second chunk arrives alone or together with the end-of-file indication
+				schedCase(o, in, fmt.Sprintf("split-%d", k), &chunkedReader{data: cp(), eofWith: k%2 == 1, next: func(rem int) int {
 					if first && kk > 0 {
 						first = false
 						return kk
@@ -701,6 +721,23 @@ func detOutputs(seed uint64, count int) []string {
 		l1, l2, _ := f.WritePDF(&b)
 		out = append(out, fmt.Sprintf("font%d-pdf:%d,%d,%x", i, l1, l2, sha256.Sum256(b.Bytes())))
 		out = append(out, fmt.Sprintf("font%d-q:%v|%v|%v|%v", i, f.GlyphList(), f.FontBBox(), f.FontBBoxPDF(), f.NumGlyphs()))
+		{
+			// a font with a NaN coordinate in one glyph (a charstring can produce one with `0 0 div`): the font boxes
+			// must not depend on the order in which the glyph map is visited
+			nf := randFont(newRng(r.next()), false)
+			var nn []string
+			for n, g := range nf.Glyphs {
+				if len(g.Cmds) > 0 && len(g.Cmds[0].Args) > 0 {
+					nn = append(nn, n)
+				}
+			}
+			sort.Strings(nn)
+			if len(nn) > 0 {
+				g := nf.Glyphs[nn[i%len(nn)]]
+				g.Cmds[0].Args[0] = math.NaN()
+				out = append(out, fmt.Sprintf("font%d-nan:%v|%v", i, nf.FontBBox(), nf.FontBBoxPDF()))
+			}
+		}
 		m := randMetrics(newRng(r.next()))
 		// every number of ligatures per glyph (0, 1, 2, 3, ... 7), glyphs visited in name order
 		var gnames []string
@@ -867,7 +904,7 @@ var hostilePrograms = []string{
 
 func probeResults() string {
 	var sb strings.Builder
-	for _, p := range []string{"1 2 add", "5 3 sub dup mul", "StandardEncoding 65 get StandardEncoding 32 get", "true false and", "/x 1 def x", "(a) 1 add",
+	for _, p := range []string{"%%Title: probe\n%%Pages: 3\n%%+ more\n1", "1 2 add", "5 3 sub dup mul", "StandardEncoding 65 get StandardEncoding 32 get", "true false and", "/x 1 def x", "(a) 1 add",
 		"/CIDInit /ProcSet findresource begin 12 dict begin begincmap /CMapName /P def 1 begincodespacerange <00> <ff> endcodespacerange 1 begincidrange <00> <10> 5 endcidrange endcmap CMapName currentdict /CMap defineresource pop end end /P /CMap findresource /CodeMap get type",
 		"FontDirectory length userdict length errordict length systemdict length", "/Fake findfont", "1183615869 internaldict length", "foo", "pop"} {
 		res, _, _ := runProgram(100000, false, []byte(p))
@@ -1027,6 +1064,19 @@ func suiteRace(o *suiteOut, r *rng, tier string, n int) {
 				nm := names.FromUnicode(v)
 				fmt.Fprint(&sb, nm, names.ToUnicode(nm, rr.chance(1, 2)), names.IsValid(nm))
 			}
+			// names whose first component stands for several characters, with different tails: a result a caller
+			// holds must not change when other names are looked up (the tables' own slices are never handed out)
+			for k := 0; k < 40; k++ {
+				first := pick(rr, []string{"lamedholamdagesh", "dalethatafpatah", "finalkafqamats", "rehatafsegol", "f_f_i", "a100", "uni004100420043", "A"})
+				tail1, tail2 := string(rune('a'+rr.intn(26))), string(rune('A'+rr.intn(26)))
+				held := names.ToUnicode(first+"_"+tail1, false)
+				want := fmt.Sprint(held)
+				other := names.ToUnicode(first+"_"+tail2, false)
+				if fmt.Sprint(held) != want {
+					fmt.Fprint(&sb, "CHANGED-UNDER-THE-CALLER:", first, tail1, tail2, want, held, other)
+				}
+				fmt.Fprint(&sb, held, other)
+			}
 			return sb.String()
 		}})
 		jobs = append(jobs, job{fmt.Sprintf("ps-%d", i), func() string {
@@ -1053,7 +1103,11 @@ func suiteRace(o *suiteOut, r *rng, tier string, n int) {
 	wg.Wait()
 	seq := map[string]string{}
 	for _, j := range jobs {
-		seq[j.name] = fmt.Sprintf("%x", sha256.Sum256([]byte(j.fn())))
+		out := j.fn()
+		if i := strings.Index(out, "CHANGED-UNDER-THE-CALLER:"); i >= 0 {
+			o.fail("C18", "a result handed to a caller does not change when other names are looked up", "iso race "+j.name, "unchanged", out[i:min(len(out), i+200)])
+		}
+		seq[j.name] = fmt.Sprintf("%x", sha256.Sum256([]byte(out)))
 	}
 	for w := range results {
 		for _, res := range results[w] {
